@@ -28,11 +28,11 @@ theorem sliceIdx_nonnegative (n : Nat) (v : Int) (d : Nat) (h : v ≥ 0) :
     sliceIdx n (some v) d = min v.toNat n := sliceIdx_nonneg n v d h
 
 theorem sliceIdx_bound (n : Nat) (v : Option Int) (d : Nat) : sliceIdx n v d ≤ max n d :=
-  sliceIdx_le n v d
+  sliceIdx_le_s4 n v d
 
 /-- the stop bound of a slice never exceeds the length -/
 theorem sliceIdx_stop_le (n : Nat) (v : Option Int) : sliceIdx n v n ≤ n := by
-  have := sliceIdx_le n v n; omega
+  have := sliceIdx_le_s4 n v n; omega
 
 /-! ### 1. the text of a slice -/
 
